@@ -39,6 +39,8 @@ pub const CLASSES: &[&str] = &[
     "wrong-return-type",
     "ill-formed-field-type-arity",
     "ill-formed-field-type-unknown",
+    "type-parameter-applied-to-arguments",
+    "variable-used-outside-its-scope",
 ];
 
 fn splice(text: &str, a: usize, b: usize, with: &str) -> String {
@@ -362,6 +364,71 @@ pub fn mutate(p: &apr::Prog, text: &str, sites: &[Site], class: &str, rng: &mut 
             } else {
                 None
             }
+        }
+        "type-parameter-applied-to-arguments" => {
+            // `fst: A` -> `fst: A[i64]` inside the declaration that binds the type parameter A
+            let s = pick(sites.iter().filter(|s| matches!(s, Site::TypeParamUse(..))).collect(), rng)?;
+            let Site::TypeParamUse(_, b) = s else { return None };
+            Some(splice(text, b, b, if rng.chance(1, 2) { "[i64]" } else { "[i64, i64]" }))
+        }
+        "variable-used-outside-its-scope" => {
+            // a variable bound by a pattern or a `let` replaces a variable use outside the clause / the
+            // body of the `let` (preferably in a sibling clause).  Names are unique, which is checked
+            // here again: the name must not occur anywhere outside its scope.
+            let ident_char = |c: char| c.is_alphanumeric() || c == '_';
+            let occurrences_outside = |name: &str, sa: usize, sb: usize| -> usize {
+                let mut n = 0;
+                let mut from = 0;
+                while let Some(i) = text[from..].find(name) {
+                    let st = from + i;
+                    let en = st + name.len();
+                    let left_ok = text[..st].chars().next_back().map(|c| !ident_char(c)).unwrap_or(true);
+                    let right_ok = text[en..].chars().next().map(|c| !ident_char(c)).unwrap_or(true);
+                    if left_ok && right_ok && !(st >= sa && en <= sb) {
+                        n += 1;
+                    }
+                    from = en;
+                }
+                n
+            };
+            // (name, scope start, scope end, sibling clauses)
+            let mut binders: Vec<(String, usize, usize, Vec<(usize, usize)>)> = Vec::new();
+            for s in sites {
+                match s {
+                    Site::LetBody { name, a, b } => {
+                        if occurrences_outside(name, *a, *b) == 1 {
+                            binders.push((name.clone(), *a, *b, Vec::new()));
+                        }
+                    }
+                    Site::Clauses { ranges, .. } => {
+                        for (k, (ca, cb)) in ranges.iter().enumerate() {
+                            let Some(arrow) = text[*ca..*cb].find("=>").map(|i| ca + i) else { continue };
+                            let list = sites.iter().filter_map(|t| match t {
+                                Site::Binders { open, close, present: true, .. } if *open >= *ca && *close < arrow => Some((*open, *close)),
+                                _ => None,
+                            });
+                            let Some((o, c)) = list.min() else { continue };
+                            let siblings: Vec<(usize, usize)> = ranges.iter().enumerate().filter(|(j, _)| *j != k).map(|(_, r)| *r).collect();
+                            for n in text[o + 1..c].split(',') {
+                                let n = n.trim();
+                                if !n.is_empty() && n.chars().all(ident_char) && occurrences_outside(n, *ca, *cb) == 0 {
+                                    binders.push((n.to_string(), *ca, *cb, siblings.clone()));
+                                }
+                            }
+                        }
+                    }
+                    _ => {}
+                }
+            }
+            if binders.is_empty() {
+                return None;
+            }
+            let (name, sa, sb, siblings) = binders[rng.below(binders.len())].clone();
+            let outside: Vec<&Site> = sites.iter().filter(|s| matches!(s, Site::VarUse(x, y) if !(*x >= sa && *y <= sb))).collect();
+            let in_sibling: Vec<&Site> = outside.iter().copied().filter(|s| matches!(s, Site::VarUse(x, y) if siblings.iter().any(|(a, b)| x >= a && y <= b))).collect();
+            let s = if !in_sibling.is_empty() && rng.chance(2, 3) { pick(in_sibling, rng)? } else { pick(outside, rng)? };
+            let Site::VarUse(x, y) = s else { return None };
+            Some(splice(text, x, y, &name))
         }
         _ => None,
     }
